@@ -167,6 +167,15 @@ class ZipfRules:
                     v = self.max_lt_min(cond, pmin, pmax)
                     if v is not None:
                         t = (o if v else not o)
+                # the bounds are compared as values of IntType: a narrowing / sign-changing conversion before the test
+                # (say, a helper taking int64_t) changes which pairs are rejected
+                tests = [e for e in p.events if e['kind'] == 'cond' and self.max_lt_min(e['value'], pmin, pmax) is not None]
+                convs = [e for e in p.events if e['kind'] == 'intconv' and self.unext(e['value']) in (pmin, pmax) and tests and e['seq'] < tests[0]['seq']]
+                if convs:
+                    e = convs[0]
+                    self.sink.bad('C19.REJECT', '%s(min, max, alpha) compares the bounds in their own type' % sn, self.loc(c, e.get('line')),
+                                  'a bound is converted from %d-bit %s to %d-bit %s before max < min is tested: the order of the two values is not preserved for every pair' %
+                                  (e['from'][0], 'signed' if e['from'][1] else 'unsigned', e['to'][0], 'signed' if e['to'][1] else 'unsigned'))
                 if p.end == 'throw':
                     n_thr += 1
                     self.sink.emit('C19.REJECT', 'ok' if t is True else 'violated', '%s(min, max, alpha) throws exactly when max < min' % sn, self.loc(c, p.ret_line),
